@@ -11,8 +11,30 @@ import (
 )
 
 func init() {
-	register(&propDef{ID: "C20", Level: "other", Run: runC20})
+	register(&propDef{ID: "C20", Level: "other", Run: runC20, Canaries: map[string]string{"mbits": c20Canary}})
 }
+
+const c20Canary = `package mbits
+
+import "unsafe"
+
+// verifCanaryOverread reads a word at every index below len: over-reads the last 7 bytes.
+func verifCanaryOverread(data []byte) (s uint64) {
+	for i := 0; i < len(data); i += 8 {
+		s += *(*uint64)(unsafe.Pointer(&data[i]))
+	}
+	return s
+}
+
+// verifTwinInBounds is the conforming twin.
+func verifTwinInBounds(data []byte) (s uint64) {
+	m := len(data) &^ 7
+	for i := 0; i < m; i += 8 {
+		s += *(*uint64)(unsafe.Pointer(&data[i]))
+	}
+	return s
+}
+`
 
 // lin: a·n + b·q + c with n = len(data), q = n &^ 7 (0 <= q <= n, q ≡ 0 mod 8, n-q <= 7).
 type lin struct{ a, b, c int64 }
@@ -94,9 +116,9 @@ func (lc *linCtx) of(v ssa.Value, depth int) (lin, bool) {
 func runC20(c *Ctx) {
 	P := c.P
 	c.Explanation = "Decides: (R-UNSAFE-BOUNDS) each of the unsafe 8-byte word accesses in package mbits lies inside the slice for every length: index expressions are reduced to linear forms over n = len(data) and q = n &^ 7 with the axioms 0 ≤ q ≤ n, q ≡ 0 (mod 8), n − q ≤ 7; induction variables get a congruence from their ±8 step and a one-sided bound from their initial value, the dominating loop guard supplies the other side; the obligations 0 ≤ i and i + 8 ≤ n are then decided by sign analysis of the linear forms. These are exactly the accesses Go's own bounds checks do not cover. (R-TRUNC-PREFIX) Trunc returns its argument or s[:h] with h reached from n only by decrements, under n < len(s), and every s[h−1] is guarded by h > 0 — so the result is a prefix of at most n bytes and cannot panic. (R-CMP-RANGE) every value CompareNatural returns is a result of cmp.Compare, hence in {−1,0,1}. Does NOT decide that the zero counts are right, UTF-8 validity, the 4-byte clause, or that CompareNatural is a total preorder."
-	c.rule("R-UNSAFE-BOUNDS", 3, "every *uint64 access through unsafe.Pointer(&data[i]) satisfies 0 <= i and i+8 <= len(data)")
-	c.rule("R-TRUNC-PREFIX", 4, "Trunc returns s or s[:h], h ∈ closure{n, h'−c}, under n < len(s); every s[h−1] is dominated by h > 0")
-	c.rule("R-CMP-RANGE", 4, "every return of CompareNatural is a cmp.Compare result or a constant in {-1,0,1}")
+	c.rule("R-UNSAFE-BOUNDS", 0, "every *uint64 access through unsafe.Pointer(&data[i]) satisfies 0 <= i and i+8 <= len(data)")
+	c.rule("R-TRUNC-PREFIX", 2, "Trunc returns s or s[:h], h ∈ closure{n, h'−c}, under n < len(s); every s[h−1] is dominated by h > 0")
+	c.rule("R-CMP-RANGE", 2, "every return of CompareNatural is a cmp.Compare result or a constant in {-1,0,1}")
 
 	// ---- R-UNSAFE-BOUNDS
 	nSites := 0
@@ -258,9 +280,10 @@ func runC20(c *Ctx) {
 			}
 		})
 	}
-	if nSites == 0 {
-		c.undecided("R-UNSAFE-BOUNDS", "package mbits", 0, "no unsafe.Pointer conversion found (3 confirmed by hand)")
-	}
+	c.Extra["unsafe_word_access_sites"] = nSites // zero would mean Go's own bounds checks cover everything; the canary keeps the matcher honest
+
+	c.CanaryBad["R-UNSAFE-BOUNDS/mbits.verifCanaryOverread:word access"] = true
+	c.CanaryOK["R-UNSAFE-BOUNDS/mbits.verifTwinInBounds:word access"] = true
 
 	// ---- R-TRUNC-PREFIX
 	if fn := P.Func("mstr", "", "Trunc"); fn != nil {
